@@ -917,7 +917,9 @@ fn mode_edge(_a: &Args) {
         });
         // "stuck": the loop was still spinning without having advanced a step when the mock's call budget
         // (5000 energy evaluations) ran out, or (no replica to count calls) after 2 s
-        let out = match rx.recv_timeout(std::time::Duration::from_secs(2)) {
+        // generous limit when the mock can abort the loop itself; 2 s only for the replica-less spin
+        let limit = if nrep == 0 { 2 } else { 60 };
+        let out = match rx.recv_timeout(std::time::Duration::from_secs(limit)) {
             Ok((Ok(_), _)) => "returned".to_string(),
             Ok((Err(p), 0)) if p.contains("budget") => "stuck".to_string(),
             Ok((Err(p), steps)) => format!("panic steps={} {}", steps, if p.contains("divide by zero") { "div0" } else { "other" }),
